@@ -370,6 +370,20 @@ class _Formatter:
                 self._line_start = False
             else:
                 self._out.append(self._space_between(prev, tok))
+                # ``x = 1; echo a=b``: a ``;`` starts a new statement, which may
+                # be a subprocess command even though the line began as Python.
+                if (
+                    prev is not None
+                    and prev.type == OP
+                    and prev.string == ";"
+                    and ttype != COMMENT
+                    and self._paren_depth == 0
+                    and not self._subproc_line
+                    and not self._macro_alias_line
+                    and not self._macro_until_depth
+                ):
+                    self._subproc_line = self._is_subproc_statement(tokens, i)
+                    self._macro_alias_line = self._is_alias_macro_line(tokens, i)
 
             rendered = self._render_token(tok)
             if "\n" in rendered and ttype in (STRING, FSTRING_MIDDLE):
